@@ -6,7 +6,7 @@
 (* written, whether replace effects were applied to the searched files.     *)
 EXTENDS Integers, Sequences, FiniteSets, Json, TLC
 
-SrcKinds  == {"com", "src", "both", "neither"}
+SrcKinds  == {"com", "src", "both", "neither", "srcmissing"}     \* srcmissing: -src names a file that does not exist
 StdFmts   == {"text", "json", "fjson", "both"}
 Modes     == {"default", "NEW", "NOTHING", "OVERWRITE", "BOGUS"}
 Programs  == {"find", "findnone", "replace", "failing", "multi"}      \* multi: two commands (results command by command)
@@ -36,7 +36,7 @@ Validate ==
 
 CompileSrc ==
   /\ phase = "compile"
-  /\ IF cfg.prog = "failing" THEN Fail(1) ELSE Go("list")
+  /\ IF cfg.prog = "failing" \/ cfg.src = "srcmissing" THEN Fail(1) ELSE Go("list")
 
 ListFiles ==
   /\ phase = "list"
